@@ -24,7 +24,7 @@ func init() {
 			"(e) every send on runCh/cancelCh happens with stateLock held after reading finalised == false in the same critical section, every close with stateLock held after finalised is set; " +
 			"(f) in runJob a nil return implies that active was set and the run signal was sent, and no return leaves active set without the signal having been sent; " +
 			"(g) lock pairing in the package; (h) on every exit path of a closure the job is finalised exactly once and its name is removed exactly once counting the claimer (CancelJob/RunJob remove it themselves, so the cancel/run arms must not). " +
-			"Added with the fourth seeding round: (k) the loops of CancelJobs are only left by exhaustion. Added with the sixth seeding round and the false-alarm regression: (l) outside its select the job goroutine waits on the run channel only; (d, extended) an entry point that hands the request to another claimer claims through it. NOT decided: the interleavings (two RunJobs at once, cancel versus timer at the same instant), timing, liveness of time.After.",
+			"Added with the fourth seeding round: (k) the loops of CancelJobs are only left by exhaustion. Added with the sixth seeding round and the false-alarm regression: (l) outside its select the job goroutine waits on the run channel only; (d, extended) an entry point that hands the request to another claimer claims through it. Added with the eighth seeding round: on the scheduler's user side (the controller) (m) the work of a duty (Propose, Attest, Message, Aggregate) is reached from the body of exactly one scheduled job and from nowhere outside a job body; (n) a context narrowed in a controller function (WithTimeout/WithDeadline/WithCancel) is not handed to the scheduler nor to a controller function that schedules under it. NOT decided: the interleavings (two RunJobs at once, cancel versus timer at the same instant), timing, liveness of time.After.",
 		Technique: "SSA select-arm analysis with min/max path counting of job invocations, finalisations and name removals; lock-set dataflow for the send/close discipline; guard/edge-deletion queries; who-may-call on the job function value",
 		Rule:      "one obligation per select arm and quantity (b,c,h), per send/close site (e), per return of runJob (f), per claimer (d), per function with lock operations (g)",
 	})
